@@ -5,7 +5,8 @@
    (no XOR / EQUIVALENCE) because flamapy.core's simplify_formula is wrong for these two operators
    (open finding; the two [..._refuted] theorems are the witnesses). *)
 From Coq Require Import List Bool Ascii String ZArith.
-From FM Require Import Base.Result Base.Str Base.AstOp Model.Ast Model.Ctc Model.Sem Proofs.C18Facts.
+From FM Require Import Base.Result Base.Str Base.AstOp Model.Ast Model.FM Model.Ctc Model.Queries Model.Sem
+     Model.PyRt Model.Loc Gen.Src_fm Proofs.C18Facts Proofs.SrcCtcFacts Proofs.SrcTieC18.
 Import ListNotations.
 Local Open Scope list_scope.
 
@@ -90,6 +91,59 @@ Theorem C18_features : forall n, node_wf n = true ->
   forall s, In s (ctc_features n) <-> (In s (leaf_names n) /\ starts_with_char "'"%char s = false).
 Proof. exact features_exact. Qed.
 Print Assumptions C18_features.
+
+(* ---- the same about the TRANSLATED SOURCE of the Constraint class and its utilities (Gen/Src_fm.v,
+   regenerated from feature_model.py on every run; DESIGN §10) ---- *)
+Theorem C18_source_is_model : forall c,
+  py_Constraint_is_requires_constraint c = is_requires (c_ast c) /\
+  py_Constraint_is_excludes_constraint c = is_excludes (c_ast c) /\
+  py_Constraint_is_simple_constraint c = is_simple (c_ast c) /\
+  py_Constraint_is_complex_constraint c = is_complex (c_ast c) /\
+  py_Constraint_is_logical_constraint c = is_logical (c_ast c) /\
+  py_Constraint_is_arithmetic_constraint c = is_arithmetic (c_ast c) /\
+  py_Constraint_is_aggregation_constraint c = is_aggregation (c_ast c) /\
+  py_Constraint_is_single_feature_constraint c = is_single_feature (c_ast c) /\
+  py_left_right_features_from_simple_constraint c = left_right (c_ast c).
+Proof.
+  intro c.
+  exact (conj (src_is_requires c) (conj (src_is_excludes c) (conj (src_is_simple c) (conj (src_is_complex c)
+        (conj (src_is_logical c) (conj (src_is_arithmetic c) (conj (src_is_aggregation c)
+        (conj (src_is_single_feature c) (src_left_right c))))))))).
+Qed.
+Print Assumptions C18_source_is_model.
+
+Theorem C18_source_split_formula : forall n fuel, (fuel_node n <= fuel)%nat -> py_split_formula fuel n = split_formula n.
+Proof. exact src_split_formula. Qed.
+Print Assumptions C18_source_split_formula.
+
+Theorem C18_source_requires_sound : forall c, node_wf (c_ast c) = true ->
+  py_Constraint_is_requires_constraint c = Ok true ->
+  exists l r, py_left_right_features_from_simple_constraint c = Ok (DStr l, DStr r)
+              /\ forall σ, eval σ (c_ast c) = Some (implb (σ l) (σ r)).
+Proof. exact source_requires_sound. Qed.
+Print Assumptions C18_source_requires_sound.
+
+Theorem C18_source_excludes_sound : forall c, node_wf (c_ast c) = true ->
+  py_Constraint_is_excludes_constraint c = Ok true ->
+  exists l r, py_left_right_features_from_simple_constraint c = Ok (DStr l, DStr r)
+              /\ forall σ, eval σ (c_ast c) = Some (negb (σ l && σ r)).
+Proof. exact source_excludes_sound. Qed.
+Print Assumptions C18_source_excludes_sound.
+
+Theorem C18_source_no_error : forall c, node_wf (c_ast c) = true ->
+  (exists b, py_Constraint_is_requires_constraint c = Ok b) /\
+  (exists b, py_Constraint_is_excludes_constraint c = Ok b) /\
+  (exists b, py_Constraint_is_simple_constraint c = Ok b) /\
+  (exists b, py_Constraint_is_complex_constraint c = Ok b) /\
+  py_Constraint_is_logical_constraint c = true.
+Proof. exact source_no_error. Qed.
+Print Assumptions C18_source_no_error.
+
+Theorem C18_source_features : forall c fuel, (fuel_node (c_ast c) <= fuel)%nat -> node_wf (c_ast c) = true ->
+  exists l, py_Constraint_get_features fuel c = Ok (map DStr l) /\ NoDup l /\
+            forall s, In s l <-> (In s (leaf_names (c_ast c)) /\ starts_with_char "'"%char s = false).
+Proof. exact source_features. Qed.
+Print Assumptions C18_source_features.
 
 Example C18_nonvacuous :
   let n := bin AND (bin IMPLIES (term "A") (term "B")) (bin OR (un NOT (term "C")) (bin EXCLUDES (term "A") (term "D"))) in
